@@ -288,14 +288,14 @@ theorem doLink_spec (src pp : Path) (n : Name) (s : St) (hc : Consistent s)
         -- copy the source up
         have hcp1 := copyNodeUp_spec src s hc
         cases hres1 : copyNodeUp src s with
-        | err e s1 => rw [hres1] at hcp1; rw [bind_err hres1]; exact hcp1
+        | err e s1 => rw [hres1] at hcp1; rw [bind_err hres1]; exact hcp1.1
         | ok u1 s1 =>
           rw [hres1] at hcp1
           rw [bind_ok hres1]
           -- copy the new parent up
           have hcp2 := copyNodeUp_spec pp s1 hcp1.cons
           cases hres2 : copyNodeUp pp s1 with
-          | err e s2 => rw [hres2] at hcp2; rw [bind_err hres2]; exact hcp2
+          | err e s2 => rw [hres2] at hcp2; rw [bind_err hres2]; exact hcp2.1
           | ok u2 s2 =>
             rw [hres2] at hcp2
             rw [bind_ok hres2]
